@@ -101,7 +101,7 @@ def random_scenario(rng: random.Random, n_callers: int, rich: bool = True) -> di
     tt = lambda: rng.choice([0.0, 0.005, 0.011, 0.02, 0.3, 0.5, 0.5 + EPS, 0.5 - EPS, 0.7, 1.5, 2.0])  # noqa: E731
     if r < 0.25:
         t0 = tt()
-        events.append({"t": t0, "ev": "conn_lost", "why": rng.choice([None, None, "serial", "transport"])})
+        events.append({"t": t0, "ev": "conn_lost", "why": rng.choice([None, None, "serial", "transport", "wrapped"])})
         if rng.random() < 0.6:
             events.append({"t": t0 + rng.choice([1e-7, 0.01, 0.5, 3.0]), "ev": "conn_made"})
     elif r < 0.4:
@@ -175,6 +175,26 @@ def foreign_null_scenarios(rich: bool) -> list[dict]:
                     c = caller(1, 0.0, "LOG", 3, 0, mr, 20.0, wfr, [{"echo": 0.01, "reply": 0.4}])
                     out.append({"mode": mode, "callers": [c],
                                 "events": [{"t": t_null, "ev": "foreign", "of": 1, "what": "null_otherctl", "hops": 0}]})
+    return out
+
+
+def cause_scenarios(rich: bool) -> list[dict]:
+    """The connection goes with every kind of cause a transport hands on (none, the serial layer's own exception, the
+    library's TransportError with a text, the library's TransportError wrapping another exception as MqttTransport does) in
+    every state of the sender: awaiting the echo, awaiting the reply, idle with one caller queued behind, between two
+    repeats.  Whatever the cause, the callers' errors stay in the family and the sender recovers on the next connection."""
+    out = []
+    no_echo = [{"echo": None, "reply": None}]
+    no_reply = [{"echo": 0.01, "reply": None}]
+    for why in (None, "serial", "transport", "wrapped"):
+        for tx, t_lost in ((no_echo, 0.1), (no_reply, 0.1), (no_echo, 0.6), ([{"echo": 0.01, "reply": 0.05}], 0.3)):
+            for again in ((None, 0.5) if rich else (0.5,)):
+                a = caller(1, 0.0, "RQ", 1, 0, 3, 20.0, True, tx)
+                b = caller(2, 0.05, "W", 2, 0, 1, 3.0, None, [{"echo": 0.01, "reply": 0.05}])
+                ev = [{"t": t_lost, "ev": "conn_lost", "why": why, "hops": 0}]
+                if again is not None:
+                    ev.append({"t": t_lost + again, "ev": "conn_made", "hops": 0})
+                out.append({"mode": None, "callers": [a, b], "events": ev})
     return out
 
 
